@@ -10,5 +10,26 @@ package converter
 //@   requires !pendingNode(dc, node) && walkPos(dc, node) && inTreeOf(as(dc.builder, *webdoc.WebDocumentBuilder).textBuilder, node)
 //@   ensures [C01] wfConv(dc)
 //@   ensures [C04] #invisible-skipped implies(!old(domutil.IsProbablyVisible(node)), !result && builderUntouched())
+//@   ensures [C04,C05] #non-reading-skipped implies(old(isNonReadingTag(dom.TagName(node))), !result)
+//@   ensures [C04,C05] #non-reading-untouched implies(old(isNonReadingTag(dom.TagName(node))) && !old(inmap(dc.embedTagNames, dom.TagName(node))), builderUntouched())
+//@   ensures [C04] #form-controls-skipped implies(old(isFormTag(dom.TagName(node))), !result)
+//@   ensures [C20] #unlikely-class-skipped implies(old(dc.hasFlag(SkipUnlikelies) && rxUnlikelyCandidates.MatchString(classAndID(node)) && !rxOkMaybeItsACandidate.MatchString(classAndID(node)) &&
+//@              !hasAncestorTag(node, "table") && dom.TagName(node) != "body" && dom.TagName(node) != "a"), !result && builderUntouched())
+//@   ensures [C20] #unlikely-role-skipped implies(old(dc.hasFlag(SkipUnlikelies) && inmap(unlikelyRoles, dom.GetAttribute(node, "role"))), !result && builderUntouched())
+//@   ensures [C07] #start-tag-for-nestable implies(result && old(isNestTag(dom.TagName(node))), exists(k, old(len(elemsOf(dc))) <= k && k < len(elemsOf(dc)), isTagElem(elemsOf(dc)[k], old(dom.TagName(node)), webdoc.TagStart)))
+//@   ensures [C07] #no-tag-otherwise implies(!result || !old(isNestTag(dom.TagName(node))), forall(k, old(len(elemsOf(dc))) <= k && k < len(elemsOf(dc)), !typeis(elemsOf(dc)[k], *webdoc.Tag)))
 //@   loop 0 invariant wfConv(dc) && node.Type == 3 && (node.Parent == nil || node.Parent.Type == 3) && inheap(node)
+//@   loop 0 invariant builderUntouched()
 //@   loop 0 invariant inTreeOf(as(dc.builder, *webdoc.WebDocumentBuilder).textBuilder, node) && !pendingNode(dc, node) && walkPos(dc, node)
+
+//@ func (*DomConverter).exitNodeHandler(node)
+//@   requires wfConv(dc) && node != nil && inheap(node)
+//@   ensures [C01] wfConv(dc)
+//@   ensures [C07] #end-tag-for-nestable implies(old(node.Type == 3 && isNestTag(dom.TagName(node))), exists(k, old(len(elemsOf(dc))) <= k && k < len(elemsOf(dc)), isTagElem(elemsOf(dc)[k], old(dom.TagName(node)), webdoc.TagEnd)))
+//@   ensures [C07] #no-tag-otherwise implies(!old(node.Type == 3 && isNestTag(dom.TagName(node))), forall(k, old(len(elemsOf(dc))) <= k && k < len(elemsOf(dc)), !typeis(elemsOf(dc)[k], *webdoc.Tag)))
+
+//@ func (*DomConverter).visitNodeHandler(node)
+//@   requires wfConv(dc) && node != nil && inheap(node) && (node.Parent == nil || node.Parent.Type == 3) && (node.Parent != nil || node.Type == 3)
+//@   requires !pendingNode(dc, node) && walkPos(dc, node) && inTreeOf(as(dc.builder, *webdoc.WebDocumentBuilder).textBuilder, node)
+//@   ensures [C01] wfConv(dc)
+//@   ensures [C04] #only-text-and-elements implies(old(node.Type) != 1 && old(node.Type) != 3, !result && builderUntouched())
